@@ -9,6 +9,7 @@ from pathlib import Path
 from typing import TYPE_CHECKING
 from typing import Iterable
 
+from liquid2.exceptions import LiquidValueError
 from liquid2.exceptions import TemplateNotFoundError
 from liquid2.loader import BaseLoader
 from liquid2.loader import TemplateSource
@@ -79,6 +80,10 @@ class FileSystemLoader(BaseLoader):
             return source, source_path.stat().st_mtime
         except OSError as err:
             raise TemplateNotFoundError(str(source_path)) from err
+        except UnicodeDecodeError as err:
+            raise LiquidValueError(
+                f"template '{source_path}' is not {self.encoding} text", token=None
+            ) from err
 
     def get_source(
         self,
